@@ -311,6 +311,8 @@ def run(ctx):
     pause_gate_reads_own_deadline(ctx, "C11")
     # every instance's own detector windows persist from tick to tick: they are fed on every tick, also while the instance's pause runs
     detector_walk_every_tick(ctx, "C11")
+    # "its actions targeting that cgroup": the instance hands its cgroup to the actions as argument text
+    cgroup_argument_pieces_taken_verbatim(ctx, "C11")
     ruleset_state_is_per_instance(ctx)
     ruleset_wiring(ctx, "C11", ['post_action_delay', 'prekill_hook_timeout', 'silenced_logs'])      # every instance is built with the template's settings
     instances_leave_only_through_the_sweep(ctx)
